@@ -8,6 +8,7 @@ import (
 	"runtime"
 	"sync"
 	"sync/atomic"
+	"time"
 
 	"github.com/pokt-network/posmint/store/rootmulti"
 	stypes "github.com/pokt-network/posmint/store/types"
@@ -335,9 +336,13 @@ func C12(tier string) int {
 	type job struct{ n, v, choices int }
 	jobs := []job{{1, 3, 6}, {2, 2, 6}, {2, 3, 4}}
 	if tier == "thorough" {
-		jobs = []job{{1, 4, 6}, {2, 3, 6}, {3, 2, 6}, {2, 4, 4}}
+		jobs = []job{{1, 4, 6}, {2, 2, 6}, {2, 3, 6}, {3, 2, 6}, {2, 4, 4}}
 	}
-	var hist, opens, loads, nontrivial int64
+	var hist, opens, loads, nontrivial, skipped int64
+	deadline := time.Now().Add(25 * time.Minute)
+	if tier != "thorough" {
+		deadline = time.Now().Add(4 * time.Minute)
+	}
 	var mu sync.Mutex
 	sem := make(chan struct{}, runtime.NumCPU())
 	var wg sync.WaitGroup
@@ -360,8 +365,8 @@ func C12(tier string) int {
 						defer wg.Done()
 						defer func() { <-sem }()
 						for _, ch := range b {
-							// (quick tier: the settings-change phase runs for the histories of one substore)
-							h := rmHist{N: j.n, Choice: ch, Pruning: pr, Names: names, SkipSettings: tier != "thorough" && j.n > 1}
+							// (the settings-change phase - 20 reopen modes x 3 commits x 3 loads - runs for the histories of one substore in the quick tier and for those with N x V <= 4 in the thorough tier)
+							h := rmHist{N: j.n, Choice: ch, Pruning: pr, Names: names, SkipSettings: j.n*j.v > 4 || (tier != "thorough" && j.n > 1)}
 							r, o, l := runC12(h)
 							if c12nontrivial(ch) {
 								atomic.AddInt64(&nontrivial, 1)
@@ -394,6 +399,10 @@ func C12(tier string) int {
 		wg.Wait()
 	}
 	atomic.StoreInt32(&rmNameVariant, 0)
+	if skipped > 0 {
+		run.Set("exhaustive", false)
+		run.Set("cap_hit", fmt.Sprintf("internal deadline reached: %d of %d histories were not run", skipped, skipped+hist))
+	}
 	run.Set("evaluations", hist)
 	run.Set("states", hist+opens+loads)
 	run.Set("transitions", opens+loads)
